@@ -3,7 +3,8 @@ transitions on the real code, trace validation, findings ledger, evidence files.
 Python 3 standard library only."""
 import atexit, json, os, re, shutil, subprocess, sys, tempfile, time, glob, hashlib
 
-os.environ.setdefault("JAVA_TOOL_OPTIONS", "-Xss64m")   # the file-format operators recurse over byte sequences
+os.environ.setdefault("JAVA_TOOL_OPTIONS", "-Xss64m")
+os.environ.setdefault("SAMPLEK", "1")   # the file-format operators recurse over byte sequences
 VERIF = "/verif"
 REPO = "/repo"
 SPEC = os.path.join(VERIF, "spec")
@@ -128,7 +129,7 @@ def replay_slice(module, cfg_template, consts, ezdrive, **kw):
         res = _replay_slice(module, cfg_template, consts, ezdrive, **kw2)
     return res
 
-def _replay_slice(module, cfg_template, consts, ezdrive, workers=None, nproc=None, timeout=1800, tag="slice", sample_every=9973, keep_mod=1):
+def _replay_slice(module, cfg_template, consts, ezdrive, workers=None, nproc=None, timeout=1800, tag="slice", sample_every=9973, keep_mod=1, sample_k=1):
     """TLC explores the bounded instance, checks its invariants/properties, and prints every transition
     (ACTION_CONSTRAINT Dump); the stream is split round-robin over nproc `ezdrive replay` processes that execute
     path+op on the real object and compare with the specification's post-state. Nothing is stored but failures."""
@@ -141,7 +142,7 @@ def _replay_slice(module, cfg_template, consts, ezdrive, workers=None, nproc=Non
     tlclog = os.path.join(work, "tlc.log")
     # bash pipeline: TLC | tee(non-edge lines -> log) | grep edges | split -> ezdrive replay
     keep = ("| awk 'NR %% %d == %d' " % (keep_mod, seed() % keep_mod)) if keep_mod > 1 else ""
-    pipe = ("set -o pipefail; timeout %d tlc -noGenerateSpecTE -workers %d -metadir %s -config %s %s 2>&1 " % (timeout, workers, md, cfg, module)
+    pipe = ("set -o pipefail; SAMPLEK=%d timeout %d tlc -noGenerateSpecTE -seed %d -workers %d -metadir %s -config %s %s 2>&1 " % (sample_k, timeout, seed(), workers, md, cfg, module)
             + "| tee >(grep -v '^\"{' > %s) | grep '^\"{' | tee >(awk '(NR==5 || NR%%%d==77) && c<4 {print; c++}' > %s/samples.txt) " % (tlclog, sample_every, work)
             + keep
             + "| split -n r/%d -u --filter='%s replay --dir %s/d.$FILE > %s/out.$FILE 2> %s/err.$FILE' - x" % (nproc, ezdrive, work, work, work))
@@ -184,7 +185,7 @@ def _replay_slice(module, cfg_template, consts, ezdrive, workers=None, nproc=Non
                 samples.append({"history": [short_op(o) for o in c["path"]], "call": short_op(c["op"]), "expected_outcome": c.get("out")})
             except ValueError:
                 pass
-    res = {"tlc": summ, "samples": samples, "stderr": stderr_tail, "keep_mod": keep_mod, "tlc_errors": errs, "tlc_out_tail": out[-3000:], "cases": cases, "fails": fails, "crashes": crashes,
+    res = {"tlc": summ, "samples": samples, "stderr": stderr_tail, "keep_mod": keep_mod * sample_k, "tlc_errors": errs, "tlc_out_tail": out[-3000:], "cases": cases, "fails": fails, "crashes": crashes,
            "wall": wall, "trace_ops": condensed_trace(out), "rc": r.returncode, "pipe_out": r.stdout[-1000:]}
     if summ is None:
         raise Infra("TLC produced no summary for %s:\n%s\n%s" % (module, out[-2000:], r.stdout[-1000:]))
